@@ -169,10 +169,51 @@ def run(ctx):
     ctx.require(ret_names, "children(): cannot identify the returned list")
     appends = [c for rn in sorted(ret_names) for c in method_calls(ch.node, "append", rn)]
     ctx.require(len(appends) >= 2, "children(): result appends vanished")
+    def prefilter(ap_):
+        """Candidates selected BEFORE the loop: `L = [k for k, v in T.items() if C]; for
+        x in L:` -> (the comprehension, loop variable, comparisons C with k renamed to the
+        loop variable), else None."""
+        import copy as _copy
+        for f_ in [f_ for f_ in ast.walk(ch.node) if isinstance(f_, ast.For)
+                   and any(x is ap_ for x in ast.walk(f_))]:
+            if not isinstance(f_.target, ast.Name):
+                continue
+            if isinstance(f_.iter, ast.ListComp):
+                defs_ = [f_.iter]
+            elif isinstance(f_.iter, ast.Name):
+                defs_ = [st_.value for st_ in ast.walk(ch.node) if isinstance(st_, ast.Assign)
+                         and dotted(st_.targets[0]) == f_.iter.id]
+            else:
+                continue
+            if len(defs_) != 1 or not isinstance(defs_[0], ast.ListComp):
+                continue
+            lc_ = defs_[0]
+            g_ = lc_.generators[0]
+            if len(lc_.generators) != 1 or not (isinstance(g_.target, ast.Tuple)
+                                                 and len(g_.target.elts) == 2):
+                continue
+            k_ = dotted(g_.target.elts[0])
+            if dotted(lc_.elt) != k_:
+                continue
+            extra = []
+            for c_ in g_.ifs:
+                c2 = _copy.deepcopy(c_)
+                for n_ in ast.walk(c2):
+                    if isinstance(n_, ast.Name) and n_.id == k_:
+                        n_.id = f_.target.id
+                for a_, t_ in decompose_guard(c2, True):
+                    cf_ = cmp_fact(a_, t_)
+                    if cf_:
+                        extra.append(cf_)
+            return lc_, f_.target.id, extra
+        return None
     for ap in appends:
         obj = norm_stmt(ap.args[0])
         for n in cfg.owners(ap):
             cpid_, cmps, _prot = child_facts(repo, A, cfg, n, ch.node, obj)
+            pf_ = prefilter(ap)
+            if pf_ and pf_[1] == cpid_:
+                cmps = list(cmps) + pf_[2]
             key = f"children:append:{obj}:{'rec' if _in_while(ch.node, ap) else 'flat'}"
             hl = holds_le(cmps, "self.create_time()", f"{obj}.create_time()")
             if hl == "strict":
@@ -234,7 +275,20 @@ def run(ctx):
                     and isinstance(f_.iter.func, ast.Attribute) and f_.iter.func.attr == "items"
                     and dotted(f_.iter.func.value) in tables
                     and isinstance(f_.target, ast.Tuple) and len(f_.target.elts) == 2]
-            if not rows:
+            pf_ = prefilter(ap)
+            if not rows and pf_ and isinstance(pf_[0].generators[0].iter, ast.Call) \
+                    and isinstance(pf_[0].generators[0].iter.func, ast.Attribute) \
+                    and pf_[0].generators[0].iter.func.attr == "items" \
+                    and dotted(pf_[0].generators[0].iter.func.value) in tables:
+                # rows filtered into a list first, then walked
+                v = dotted(pf_[0].generators[0].target.elts[1])
+                cm2 = list(cmps) + pf_[2]
+                if cpid != pf_[1]:
+                    why = f"the child is built from `{cpid}`, not from the selected pid `{pf_[1]}`"
+                elif not any(op is ast.Eq and {l, r} == {v, "self.pid"} for l, op, r in cm2):
+                    why = (f"no test `{v} == self.pid` selects the rows: processes whose "
+                           f"parent is another process would be reported as children")
+            elif not rows:
                 why = "the children are not selected from the rows of the ppid table"
             else:
                 k, v = (dotted(x) for x in rows[-1].target.elts)
